@@ -37,7 +37,7 @@ RULE = ("one run = one version-2 certificate file, one root certificate and one 
         "wrong root, dishonest issuer; clock: inside all windows, 1 s before / exactly at / 1 s after "
         "each notBefore and notAfter, far past, far future, non-overlapping windows; non-trivial = a "
         "certificate file existed; distinct = (class, alteration, element, clock class, verdict)")
-TIERS = {"quick": {"runs": 900, "wall": 170}, "thorough": {"runs": 50000, "wall": 2400}}
+TIERS = {"quick": {"runs": 8000, "wall": 240}, "thorough": {"runs": 150000, "wall": 3000}}
 MUTANT_RUNS = 700
 MUTANT_WALL = 150
 COMPONENTS = {
